@@ -54,7 +54,7 @@ func (g *arGen) leaf() (string, float64) {
 		lits := []struct {
 			s string
 			b float64
-		}{{"010", 4}, {"0x1F", 5}, {"2#101", 3}, {"16#ff", 8}, {"36#z", 6}, {"64#_", 6}, {"64#@", 6}, {"8#17", 4}, {"0", 0}, {"007", 3}, {"0xA", 4}, {"37#a", 6}, {"62#Z", 6}}
+		}{{"010", 4}, {"0x1F", 5}, {"2#101", 3}, {"16#ff", 8}, {"36#z", 6}, {"64#_", 6}, {"64#@", 6}, {"8#17", 4}, {"0", 0}, {"007", 3}, {"0xA", 4}, {"37#a", 6}, {"62#Z", 6}, {"36#Z", 6}, {"35#Y", 6}, {"16#Ff", 8}, {"11#A", 4}, {"36#Az", 11}, {"0Xa", 4}}
 		l := lits[g.r.IntN(len(lits))]
 		return l.s, l.b
 	default:
